@@ -552,15 +552,12 @@ func registerRound5() {
 		})
 	}
 	// C13: a configuration that still allows TLS 1.1 and a client that offers nothing newer
-	{
-		srv, cli := legacyPKI()
-		regSpec(&Spec{
-			Name: "starttls-with-tls11", Props: []string{"C13"},
-			Srv:   SrvOpts{StartTLS: srv},
-			Conns: []ConnSpec{{Ops: []string{"starttls", "bind", "search"}, Segs: []int{1, 1}, Expect: 3, TLSCfg: cli}},
-			Check: startTLSCheck(1), Quick: 2, Thor: 3,
-		})
-	}
+	regSpec(&Spec{
+		Name: "starttls-with-tls11", Props: []string{"C13"},
+		Srv:   SrvOpts{LegacyTLS: true},
+		Conns: []ConnSpec{{Ops: []string{"starttls", "bind", "search"}, Segs: []int{1, 1}, Expect: 3, LegacyTLS: true}},
+		Check: startTLSCheck(1), Quick: 2, Thor: 3,
+	})
 	// C12: Stop with an established session on a TLS listener: the socket is closed, not only the TLS session
 	regSpec(&Spec{
 		Name: "stop-with-established-tls-listener-session", Props: []string{"C12", "C08", "C11"},
